@@ -61,7 +61,7 @@ package main
 //@   requires wfProgs(r.patches)
 //@   requires forall i int {r.errors[i]} :: 0 <= i && i < len(r.errors) ==> r.errors[i] != nil
 //@   at call astdiff.Before set snapCurrent = result0
-//@   at call (*astdiff.Snapshot).Diff assert [C12,C17] every-change-is-compared-with-the-tree-its-predecessor-left: arg0 == snapCurrent
+//@   at call (*astdiff.Snapshot).Diff assert [C04,C12,C17] every-change-is-compared-with-the-tree-its-predecessor-left: arg0 == snapCurrent
 //@   at call (*astdiff.Snapshot).Diff set snapCurrent = result0
 //@   at call engine.NewChangelog set lastChangelog = result0
 //@   at call engine.NewChangelog set changelogsMade = changelogsMade + 1
@@ -74,13 +74,13 @@ package main
 //@   ensures [C16] recorded-errors-are-errors: forall i int {r.errors[i]} :: 0 <= i && i < len(r.errors) ==> r.errors[i] != nil
 //@   ensures [C06,C08,C09] matched-has-file: matched ==> fout != nil
 //@   ensures [C06] matched-only-after-match: matched ==> matchCount > old(matchCount)
-//@   ensures [C09,C12,C16] failed-replace-means-unmatched: replFail > old(replFail) ==> (!matched && len(r.errors) > old(len(r.errors)))
+//@   ensures [C05,C09,C12,C16] failed-replace-means-unmatched: replFail > old(replFail) ==> (!matched && len(r.errors) > old(len(r.errors)))
 //@   ensures [C06,C09] only-errors-grow: len(r.errors) >= old(len(r.errors))
 //@   ensures [C06,C15,C16] a-file-is-given-up-only-for-a-failure-of-its-own: replFail == old(replFail) ==> (matched == (matchCount > old(matchCount))) && len(r.errors) == old(len(r.errors))
 //@   ensures errors-array-same-or-fresh: r.errors.arr == old(r.errors.arr) || fresh(r.errors.arr)
 //@   loop 0
 //@     invariant snap != nil && snap.value != nil && wfV(snap.value)
-//@     invariant [C12,C17] snap == snapCurrent
+//@     invariant [C04,C12,C17] snap == snapCurrent
 //@     invariant [C17] changelogsMade - old(changelogsMade) == changelogsUsed - old(changelogsUsed)
 //@     invariant r.errors.arr == old(r.errors.arr) || fresh(r.errors.arr)
 //@     invariant forall i int {r.errors[i]} :: 0 <= i && i < len(r.errors) ==> r.errors[i] != nil
@@ -95,7 +95,7 @@ package main
 //@     invariant len(r.errors) >= old(len(r.errors))
 //@   loop 1
 //@     invariant snap != nil && snap.value != nil && wfV(snap.value)
-//@     invariant [C12,C17] snap == snapCurrent
+//@     invariant [C04,C12,C17] snap == snapCurrent
 //@     invariant [C17] changelogsMade - old(changelogsMade) == changelogsUsed - old(changelogsUsed)
 //@     invariant r.errors.arr == old(r.errors.arr) || fresh(r.errors.arr)
 //@     invariant forall i int {r.errors[i]} :: 0 <= i && i < len(r.errors) ==> r.errors[i] != nil
@@ -116,7 +116,7 @@ package main
 //@   requires global("path/filepath.SkipDir") != nil
 //@   assigns paths, elems(paths)
 //@   ensures [C15] walk-error-propagates: err != nil ==> res == err && paths == old(paths)
-//@   ensures [C15] regular-go-file-collected: err == nil && modeIsRegular(fileMode(info)) && hasSuffix(path, ".go") ==> (res == nil && len(paths) == old(len(paths)) + 1 && paths[old(len(paths))].Absolute == path)
+//@   ensures [C01,C15] regular-go-file-collected: err == nil && modeIsRegular(fileMode(info)) && hasSuffix(path, ".go") ==> (res == nil && len(paths) == old(len(paths)) + 1 && paths[old(len(paths))].Absolute == path)
 //@   ensures [C15] collected-prefix-kept: forall i int :: 0 <= i && i < old(len(paths)) ==> paths[i] == old(paths[i])
 //@   ensures [C15] nothing-else-collected: err == nil && !(modeIsRegular(fileMode(info)) && hasSuffix(path, ".go")) ==> paths == old(paths)
 //@   ensures [C15] pruned-directories: err == nil && modeIsDir(fileMode(info)) ==> ((res == global("path/filepath.SkipDir")) <==> (len(pathBase(path)) == 0 || pathBase(path)[0] == '.' || pathBase(path)[0] == '_' || pathBase(path) == "testdata" || pathBase(path) == "vendor"))
@@ -176,7 +176,7 @@ package main
 //@   at call os.WriteFile set emissions = emissions + 1
 //@   at call (*log.Logger).Printf where arg1 is "%s: patched" assert [C06,C12] a-patched-file-was-emitted-exactly-once: ok && emissions == emitMark + 1
 //@   at call io.Writer.Write set echoes = echoes + 1
-//@   at call (*log.Logger).Printf where arg1 is "%s: skipped" assert [C06] print-only-echoes-an-unmatched-file: !ok && (opts.Print ==> echoes == echoMark + 1) && (!opts.Print ==> echoes == echoMark)
+//@   at call (*log.Logger).Printf where arg1 is "%s: skipped" assert [C06,C10] print-only-echoes-an-unmatched-file: !ok && (opts.Print ==> echoes == echoMark + 1) && (!opts.Print ==> echoes == echoMark)
 //@   at call io.Writer.Write assert [C06] echo-original: !ok ==> (opts.Print && arg0 == cmd.Stdout && string(arg1) == disk[filename])
 //@   at call io.Writer.Write assert [C12,C14] print-pipeline-output: ok ==> (opts.Print && !opts.Diff && arg0 == cmd.Stdout && string(arg1) == ite(opts.SkipImportProcessing, fmtNode(f), impProc(filename, fmtNode(f))))
 //@   at call io.Writer.Write assert [C07,C09] printed-bytes-parse: ok ==> Parses(string(arg1))
@@ -321,7 +321,7 @@ package main
 
 //@ func (l *patchLoader) LoadFile(path) (err)
 //@   assigns l.progs, elems(l.progs)
-//@   ensures [C09] loaded-appended-last: err == nil ==> len(l.progs) == old(len(l.progs)) + 1
+//@   ensures [C03,C09] loaded-appended-last: err == nil ==> len(l.progs) == old(len(l.progs)) + 1
 //@   ensures [C09] appended-are-wellformed: forall i int {l.progs[i]} :: old(len(l.progs)) <= i && i < len(l.progs) ==> wfProg(l.progs[i])
 //@   ensures [C09] earlier-programs-kept-in-order: forall i int {l.progs[i]} :: 0 <= i && i < old(len(l.progs)) ==> l.progs[i] == old(l.progs[i])
 //@   ensures [C09] at-most-one-appended: len(l.progs) == old(len(l.progs)) || len(l.progs) == old(len(l.progs)) + 1
